@@ -398,9 +398,10 @@ theorem finalize_canon (c : Cfg) (w : WF c) (xs : List α) (st : Bool) :
 
 /-! ### compute_full -/
 
-theorem full_eq (c : Cfg) (w : WF c) (xs : List α) :
+/-- `compute_full`'s frames in closed form — no hypothesis on the configuration (in particular also for
+`frame_shift > frame_length`, which `compute_full` supports) -/
+theorem full_eq' (c : Cfg) (xs : List α) :
     full c xs = framesFrom c (ext xs) 0 (numFull c xs.length) := by
-  have hS := w.hS; have hSL := w.hSL
   unfold full
   simp only
   by_cases hshort : xs.length < c.L / 2 + 1
@@ -413,5 +414,8 @@ theorem full_eq (c : Cfg) (w : WF c) (xs : List α) :
       have e : ((numFull c xs.length : Int) - 1) * c.S = (((numFull c xs.length - 1) * c.S : Nat) : Int) := by
         rw [Int.natCast_mul]; congr 1; omega
       rw [e]; omega
+
+theorem full_eq (c : Cfg) (_w : WF c) (xs : List α) :
+    full c xs = framesFrom c (ext xs) 0 (numFull c xs.length) := full_eq' c xs
 
 end PdsVerif.StftCanon
